@@ -153,8 +153,8 @@ func main() {
 	r := rand.New(rand.NewSource(*seed))
 	small := bg.SmallScope(3, 2, 4)
 
-	wr := &cf.Writer{Dir: *out, Prefix: "cases13_range", Imports: imports, CaseType: "rcase", MismatchFn: "mismatches13_range", ShardSize: 120}
-	wq := &cf.Writer{Dir: *out, Prefix: "cases13_rr", Imports: imports, CaseType: "rrcase", MismatchFn: "mismatches13_rr", ShardSize: 120}
+	wr := &cf.Writer{Dir: *out, Prefix: "cases13_range", Imports: imports, CaseType: "rcase", MismatchFn: "mismatches13_range", ShardSize: 40}
+	wq := &cf.Writer{Dir: *out, Prefix: "cases13_rr", Imports: imports, CaseType: "rrcase", MismatchFn: "mismatches13_rr", ShardSize: 30}
 	addRange := func(in bg.Input, kind string) {
 		plan, err := sarama.BalanceStrategyRange.Plan(in.MemberMap(), in.TopicMap())
 		if err != nil {
@@ -304,6 +304,29 @@ func main() {
 			prevIn, prevPlan = &pi, run.Plan
 			w.Feedback(run.RawPlan)
 		}
+	}
+	// balance does not depend on honest user data (c13_sticky_balanced): forged, skewed states where performReassignments
+	// has to work, with non-identical subscriptions
+	nadv := *n / 3
+	if only != nil {
+		nadv = 0
+	}
+	for i := 0; i < nadv && hangs == 0; i++ {
+		in := bg.Adversarial(r, 6, 3, 10)
+		run := bg.RunSticky(in)
+		cj := caseJSON{Strategy: "sticky", In: &run.In, Oracle: &run.Oracle, Plan: run.Plan, Err: run.Err, Hang: run.Hang, Rel: 3}
+		var mon *cf.Monitor
+		if run.Hang {
+			hangs++
+		} else if run.RawPlan != nil {
+			if k, what := bg.Validity(&run.In, run.Plan); k != "" {
+				mon = &cf.Monitor{Signature: "sticky:invalid-plan:" + k, What: what}
+			} else if b := bg.KafkaBalanced(&run.In, run.Plan); b != "" {
+				mon = &cf.Monitor{Signature: "sticky:not-balanced", What: "sticky plan is not balanced: " + b}
+			}
+		}
+		ws.Add(cf.App("Build_s13case", run.CoqCase(fx), "None", "3", "false", "[]"),
+			cf.Sidecar{Case: cj, Kind: "sticky-adversarial", Nontrivial: in.Nontrivial() && run.RawPlan != nil, Monitor: mon})
 	}
 	ws.Close()
 	fmt.Printf("INFO cases range=%d roundrobin=%d sticky=%d hangs=%d\n", wr.Total, wq.Total, ws.Total, hangs)
